@@ -40,7 +40,7 @@ type c13Case struct {
 	// conditional entries and all condition lists. Writing "behind the end" of one slice then changes a neighbour.
 	Spare  bool   `json:"spare,omitempty"`
 	OpCase uint64 `json:"op_case,omitempty"` // operation names spelled in other letter cases (seed of the spelling)
-	Mutate string `json:"mutate,omitempty"` // history kind: modify the value in place after the first compilations (default / group-action / drop-group)
+	Mutate string `json:"mutate,omitempty"`  // history kind: modify the value in place after the first compilations (default / group-action / drop-group)
 }
 
 type hdr struct {
